@@ -31,6 +31,11 @@ def explore(ctx, res, replay=None):
             f2 = dict(files)
             f2[main] = neighbours(rng, files[main], rng.randint(1, 3))
             inputs.append((f2, main))
+    # inputs that drive library calls into their error paths (range errors, huge numerals, missing files): state such
+    # calls leave behind (errno, locale, ...) must not reach later compilations
+    for txt in ('x0 := 99999999999999999999', 'x0 := 18446744073709551616; x1 := x0 - 99999999999999999999', 'DEFINE PRIO 99999999999999999999 a AS b END DEFINE a',
+                'x0 := 2147483647', 'x0 := 9223372036854775807', 'include "nofile" x := 1', 'x0 := 1; x1 := 2; x2 := x1 + 3'):
+        inputs.append(({'m': txt}, 'm'))
     inputs.append(({}, 'absent'))
     inputs.append(({'m': 'DEFINE <P> AS $0 END DEFINE x := 1'}, 'm'))
     scratch = tempfile.mkdtemp(prefix='theo-shared.', dir='/var/tmp')
